@@ -38,13 +38,13 @@ def exitTy (es : List Ev) (o : Option Ty) (x : Var) : Option Ty :=
   | some t => some t
   | none => o
 
-/-- `TyAt U x b o`: some path from the entry to `b` along edges the checker follows (real
-    edges; from the entry also dummy ones) gives `x` the type `o` on arrival at `b`
+/-- `TyAt U x b o`: some path from the entry to `b` along control-flow edges (real ones and
+    the never-taken dummy ones, exactly the edges of `LivePath`) gives `x` the type `o` on arrival at `b`
     (`none` = not assigned on that path). -/
 inductive TyAt (U : UCfg) (x : Var) : Blk → Option Ty → Prop
   | entry : TyAt U x U.entry (lookup x U.args)
   | edge {p s : Blk} {o : Option Ty} : TyAt U x p o →
-      (s ∈ U.succ p ∨ (p = U.entry ∧ s ∈ U.dsucc p)) → TyAt U x s (exitTy (U.events p) o x)
+      s ∈ U.succ p ++ U.dsucc p → TyAt U x s (exitTy (U.events p) o x)
 
 /-- `x` may hold different types on different incoming paths of `b` and is read afterwards -/
 def TypeConflict (U : UCfg) (x : Var) : Prop :=
